@@ -1270,6 +1270,11 @@ cd {ROOT}
                         del oldCheckoutState[scmDir]
                         BobState().setDirectoryState(prettySrcPath, oldCheckoutState)
                     elif scmDigest != checkoutState.get(scmDir, (None, None))[0]:
+                        # Invalidate first. If we are killed while switching or
+                        # moving the directory, the next run must not trust it.
+                        if scmDigest:
+                            oldCheckoutState[scmDir] = (False, scmSpec)
+                            BobState().setDirectoryState(prettySrcPath, oldCheckoutState)
                         canSwitch = (scmDir in scmMap) and scmDigest and \
                                      scmSpec is not None and \
                                      scmMap[scmDir].canSwitch(getScm(scmSpec)) and \
